@@ -616,6 +616,53 @@ func seqStatesUnder(c seqCase, alphas []string) (states []int, anyTie bool, nEit
 	return
 }
 
+// byNameView: the cleaned object read by name agrees with the object read by index. before = the rows it
+// held before the cleaning, after = the rows it holds now (by index). A remaining sequence is found by
+// name with its residues and at its index; a removed one is found by no access path, and can be added
+// again under its own name (which is then the name of the new last row). The object is modified by the
+// last step: call it last.
+func byNameView(al align.Alignment, before, after []gen.Row) error {
+	at := map[string]int{}
+	for i, r := range after {
+		at[r.Name] = i
+	}
+	for _, r := range before {
+		i, remains := at[r.Name]
+		s, ok1 := al.GetSequence(r.Name)
+		ch, ok2 := al.GetSequenceChar(r.Name)
+		sq, ok3 := al.GetSequenceByName(r.Name)
+		_, ok4 := al.SequenceByName(r.Name)
+		id := al.GetSequenceIdByName(r.Name)
+		if remains {
+			if !ok1 || !ok2 || !ok3 || !ok4 || s != after[i].Seq || string(ch) != after[i].Seq || sq.Sequence() != after[i].Seq || id != i {
+				return fmt.Errorf("the remaining sequence %q (row %d, %q) is read by name as %q,%v / %q,%v / found %v,%v / index %d", r.Name, i, after[i].Seq, s, ok1, string(ch), ok2, ok3, ok4, id)
+			}
+			continue
+		}
+		if ok1 || ok2 || ok3 || ok4 || id >= 0 {
+			return fmt.Errorf("the removed sequence %q is still found by name (GetSequence %v, GetSequenceChar %v, GetSequenceByName %v, SequenceByName %v, index %d); by index the alignment holds %s", r.Name, ok1, ok2, ok3, ok4, id, gen.Show(after))
+		}
+	}
+	for _, r := range before {
+		if _, remains := at[r.Name]; remains {
+			continue
+		}
+		// a removed sequence can come back under its own name
+		seq := r.Seq
+		if len(after) > 0 {
+			seq = strings.Repeat("A", len(after[0].Seq))
+		}
+		if err := al.AddSequence(r.Name, seq, ""); err != nil {
+			return fmt.Errorf("the removed sequence %q cannot be added again: %v", r.Name, err)
+		}
+		if last, _ := al.GetSequenceNameById(al.NbSequences() - 1); last != r.Name {
+			return fmt.Errorf("the removed sequence %q added again is named %q", r.Name, last)
+		}
+		break
+	}
+	return nil
+}
+
 func seqsOf(held []gen.Row) []string {
 	out := make([]string, len(held))
 	for i, r := range held {
@@ -666,6 +713,9 @@ func checkSites(c siteCase) (o pbt.Outcome, err error) {
 	}
 	if e := sourceUnchanged(); e != nil {
 		return o, fmt.Errorf("%s cutoff %d/%d (kept %v removed %v): %v", c.Op, c.P, c.Q, kept, rm, e)
+	}
+	if e := byNameView(al, held, gen.Snapshot(al)); e != nil {
+		return o, fmt.Errorf("%s cutoff %d/%d (kept %v removed %v): after the cleaning %v", c.Op, c.P, c.Q, kept, rm, e)
 	}
 	o.Ambiguous = nEither
 	o.NonTrivial = (len(rm) > 0 && len(kept) > 0) || anyTie
@@ -824,11 +874,9 @@ func checkSeqs(c seqCase) (o pbt.Outcome, err error) {
 	if al.NbSequences() != len(c.Rows)-removed {
 		return o, fmt.Errorf("NbSequences() = %d after removing %d of %d", al.NbSequences(), removed, len(c.Rows))
 	}
-	// the survivors stay reachable by name
-	for _, r := range after {
-		if s, ok := al.GetSequence(r.Name); !ok || s != r.Seq {
-			return o, fmt.Errorf("GetSequence(%q) = %q,%v after sequence cleaning", r.Name, s, ok)
-		}
+	// the result consists of the remaining sequences through EVERY access path
+	if e := byNameView(al, held, after); e != nil {
+		return o, fmt.Errorf("sequences, %s %q cutoff %d/%d: after the cleaning %v", c.Op, c.Char, c.P, c.Q, e)
 	}
 	o.Ambiguous = nEither
 	o.NonTrivial = (removed > 0 && removed < len(c.Rows)) || anyTie
